@@ -60,6 +60,26 @@ theorem fail_atomic (val : Validator) (b b' : Bytes) (e : AdvErr) :
       rw [fail_atomic_egress val p _ e this] at h
       rw [← h.1]; exact (toBytes_ofBytes b p rest hp).1
 
+/-- **Atomicity of the statement sequences.**  `ingressImp` / `egressImp` run the statements of
+`advance_{ingress,egress}_with_validator` in source order with the receiver threaded through – an exit returns the
+receiver *as written so far*, not the input by construction.  They compute the summaries (`ingressImp_eq`,
+`egressImp_eq`: on every exit path no write has happened), hence an `AdvanceError` hands back the receiver the call
+started from.  The driver runs these forms, so this is what the harness compares with the code after every call. -/
+theorem fail_atomic_imp (val : Validator) (fi : Bool) (p p' : PathV) (e : AdvErr) :
+    ((ingressImp val fi).run p = (p', .err e) → p' = p) ∧ ((egressImp val).run p = (p', .err e) → p' = p) :=
+  ⟨fun h => fail_atomic_ingress val fi p p' e (by rw [← ingressImp_eq]; exact h),
+   fun h => fail_atomic_egress val p p' e (by rw [← egressImp_eq]; exact h)⟩
+
+/-- **The order of effects is the one in `routing.rs` as it is now.**  The translator re-extracts, on every run, the
+source order of early exits (`?`, `return Err`), panic sites and receiver writes of both advance functions; it equals
+the order mirrored by `ingressImp` / `egressImp`, and in it every exit precedes every write.  (Moving the commit block
+or a `set_curr_*` call in front of a `?` changes the generated list and breaks this theorem; the bodies contain no
+loop in front of the last exit – the translator refuses otherwise – so source order is execution order.) -/
+theorem effects_tie_advance :
+    ingressImp.effects = EFFECTS_INGRESS ∧ egressImp.effects = EFFECTS_EGRESS ∧
+    exitsBeforeWrites EFFECTS_INGRESS = true ∧ exitsBeforeWrites EFFECTS_EGRESS = true := by
+  decide
+
 theorem segIndex_some (s0 s1 s2 hop seg : Nat) (sos eos : Bool) (h : segIndex s0 s1 s2 hop = some (seg, sos, eos)) :
     hop < s0 + s1 + s2 ∧ seg ≤ 2 ∧ (eos = false → hop + 1 < s0 + s1 + s2) ∧
     (seg = 0 → 0 < s0) ∧ (seg = 1 → 0 < s1) ∧ (seg = 2 → 0 < s2) := by
@@ -409,6 +429,102 @@ theorem bounded_processing (steps : List Step) (p : PathV) :
       omega
   exact ⟨key steps p, Nat.le_trans (key steps p) (Nat.sub_le _ _)⟩
 
+/-! ### processing at an AS (ingress, then egress when told to continue)
+
+The statement's "moves the current-hop pointer strictly forward" is about *processing at an AS*: a successful
+ingress step alone keeps both pointers (or moves both at a segment change); the pointer is moved by the egress step
+the ingress step announces.  `ForwardLocal` ends the journey: the packet is delivered, no pointer moves. -/
+
+/-- processing at one AS with arbitrary validators, validation verdicts ignored (worst case for boundedness):
+`some true` = delivered locally, `some false` = forwarded (both calls `Ok`), `none` = one of the calls failed -/
+def asProc (vi ve : Validator) (fi : Bool) (p : PathV) : PathV × Option Bool :=
+  match advanceIngress vi fi p with
+  | (p1, .ok o) =>
+    match o.action with
+    | .forwardLocal => (p1, some true)
+    | .continueEgress _ =>
+      match advanceEgress ve p1 with
+      | (p2, .ok _) => (p2, some false)
+      | (p2, _) => (p2, none)
+  | (p1, _) => (p1, none)
+
+theorem asProc_measure (vi ve : Validator) (fi : Bool) (p : PathV) :
+    (asProc vi ve fi p).1.hopCount = p.hopCount ∧
+    (asProc vi ve fi p).1.hopCount - (asProc vi ve fi p).1.currHf + (if (asProc vi ve fi p).2 = some false then 1 else 0)
+      ≤ p.hopCount - p.currHf ∧
+    ((asProc vi ve fi p).2 = some false → p.currHf < (asProc vi ve fi p).1.currHf) := by
+  unfold asProc
+  cases hr : advanceIngress vi fi p with
+  | mk p1 r =>
+    cases r with
+    | ok o =>
+      obtain ⟨mono, s0, s1, s2⟩ := ingress_nondecreasing vi fi p p1 o hr
+      have hc : p1.hopCount = p.hopCount := by simp only [PathV.hopCount, s0, s1, s2]
+      have hm : p1.hopCount - p1.currHf ≤ p.hopCount - p.currHf ∧ p.currHf ≤ p1.currHf := by
+        rcases mono with ⟨a, -⟩ | ⟨a, -, -⟩ <;> omega
+      cases ha : o.action with
+      | forwardLocal =>
+        simp only [ha]
+        exact ⟨hc, by simpa using hm.1, by simp⟩
+      | continueEgress eg =>
+        simp only [ha]
+        cases hr2 : advanceEgress ve p1 with
+        | mk p2 r2 =>
+          cases r2 with
+          | ok o2 =>
+            obtain ⟨a, -, b, t0, t1, t2⟩ := egress_strict ve p1 p2 o2 hr2
+            have hc2 : p2.hopCount = p1.hopCount := by simp only [PathV.hopCount, t0, t1, t2]
+            refine ⟨by rw [hc2, hc], ?_, fun _ => by show p.currHf < p2.currHf; omega⟩
+            show p2.hopCount - p2.currHf + (if (some false : Option Bool) = some false then 1 else 0) ≤ _
+            simp only [if_true]
+            omega
+          | err e2 =>
+            rw [fail_atomic_egress ve p1 p2 e2 hr2]
+            exact ⟨hc, by simpa using hm.1, by simp⟩
+          | panic => exact absurd (by rw [hr2]) (no_panic ve p1).2
+    | err e => rw [fail_atomic_ingress vi fi p p1 e hr]; exact ⟨rfl, by simp, by simp⟩
+    | panic => exact absurd (by rw [hr]) ((no_panic vi p).1 fi)
+
+/-- run a sequence of AS processings (any validators, any entry side, also after failures or deliveries); returns
+the final state and the number of processings that *forwarded* the packet -/
+def runProc : List (Validator × Validator × Bool) → PathV → PathV × Nat
+  | [], p => (p, 0)
+  | (vi, ve, fi) :: rest, p =>
+    let r := asProc vi ve fi p
+    let t := runProc rest r.1
+    (t.1, t.2 + (if r.2 = some false then 1 else 0))
+
+/-- **`as_processing_bounded`.**  Processing at an AS that forwards the packet moves CurrHF strictly forward, and in
+*any* sequence of AS processings on any structured state the number of forwarding ones is at most
+`hop_count − CurrHF` ≤ the number of hop fields.  (Ingress steps alone are **not** bounded and do not move the
+pointer: `ingress_alone_not_strict_witness`; neither is delivery, which leaves the packet where it is.) -/
+theorem as_processing_bounded (l : List (Validator × Validator × Bool)) (p : PathV) :
+    (runProc l p).2 ≤ p.hopCount - p.currHf ∧ (runProc l p).2 ≤ p.hopCount ∧
+    (∀ vi ve fi, (asProc vi ve fi p).2 = some false → p.currHf < (asProc vi ve fi p).1.currHf) := by
+  have key : ∀ (l : List (Validator × Validator × Bool)) (p : PathV), (runProc l p).2 ≤ p.hopCount - p.currHf := by
+    intro l
+    induction l with
+    | nil => intro p; simp [runProc]
+    | cons x rest ih =>
+      obtain ⟨vi, ve, fi⟩ := x
+      intro p
+      simp only [runProc]
+      have h1 := ih (asProc vi ve fi p).1
+      obtain ⟨-, h2, -⟩ := asProc_measure vi ve fi p
+      omega
+  exact ⟨key l p, Nat.le_trans (key l p) (Nat.sub_le _ _), fun vi ve fi => (asProc_measure vi ve fi p).2.2⟩
+
+/-- A successful ingress step alone does not move the pointer and can be repeated without bound: entering a segment
+against construction direction from outside, two ingress steps in a row both succeed, leave CurrHF/CurrINF where they
+were and fold the MAC into SegID twice (the second undoes the first).  "Strictly forward" in the property is a
+statement about ingress *followed by* egress (`as_step_progress`, `as_processing_bounded`). -/
+theorem ingress_alone_not_strict_witness :
+    ∃ p p1 p2 o1 o2, advanceIngress noValidation false p = (p1, .ok o1) ∧ advanceIngress noValidation false p1 = (p2, .ok o2) ∧
+      p1.currHf = p.currHf ∧ p1 ≠ p ∧ p2 = p := by
+  let i : InfoF := ⟨0, 0, 0x1234, 1000⟩
+  let h (n : Nat) : HopF := ⟨0, 5, n, n + 1, 0xabcdef000000 + n⟩
+  exact ⟨⟨0, 1, 0, 3, 0, 0, [i], [h 0, h 1, h 2]⟩, _, _, _, _, rfl, rfl, rfl, by decide, by decide⟩
+
 /-- **`info_follows_hop`.**  On a gap-free segment table (no empty segment before a non-empty one) every
 successful step leaves CurrINF equal to the segment that contains CurrHF. -/
 theorem info_follows_hop (p p' : PathV) (hgap : p.seg1 = 0 → p.seg2 = 0) :
@@ -743,6 +859,124 @@ theorem asStep_interior (k : K) (fi : Bool) (p : PathV) (sos : Bool) (hop : HopF
   simp only [hopMacValidator_hop, macOk_flags mac k hop _ _ (ingHop_auth fi hop info), hm, if_true]
   simp only [p1, List.set_set, stepInfo]
 
+/-- whatever the position (interior hop field, segment change, last hop field): if processing at the AS holding key
+`k` goes through – every call `Ok`, every validation passed – then the current hop field carried the MAC of the SegID
+after the ingress update -/
+theorem asStep_some_macOk (k : K) (fi : Bool) (p : PathV) (r : PathV × Bool) (hop : HopF) (info : InfoF)
+    (hh : p.hopAt p.currHf = some hop) (hi : p.infoAt p.currInf = some info) (h : asStep mac k fi p = some r) :
+    macOk mac k hop (ingInfo fi hop info) = true := by
+  unfold asStep at h
+  cases hr : advanceIngress (hopMacValidator mac k) fi p with
+  | mk p1 res =>
+    cases res with
+    | ok o =>
+      simp only [hr] at h
+      by_cases hv : o.valid = true
+      · obtain ⟨hop', info', hh', hi', -, hc⟩ := ingress_valid_iff mac k fi p p1 o hr
+        rw [hh] at hh'; rw [hi] at hi'
+        cases hh'; cases hi'
+        rcases hc with ⟨-, e⟩ | ⟨-, nh, ni, -, -, -, -, e⟩
+        · rw [← e]; exact hv
+        · rw [e] at hv
+          simp only [Bool.and_eq_true] at hv
+          exact hv.1
+      · simp [hv] at h
+    | err e => simp [hr] at h
+    | panic => simp [hr] at h
+
+/-- **Tampering is caught at the owning AS, by the real step functions.**  Let `(h0, i0)` be the authentic hop field
+and the info field (chaining value after the ingress update, timestamp) the AS holding key `k` would see.  If the
+packet that arrives has *any* authenticated bit changed at this hop – exp, ingress, egress, MAC bytes, timestamp or
+the chaining value as it reaches this AS (so also every change made to an earlier MAC of the segment) – and processing
+at this AS (`asStep`: `advance_ingress_with_validator` then `advance_egress_with_validator` with `HopMacValidator`)
+nevertheless goes through, then the packet carries a valid tag for a MAC input different from the authentic one; with
+an unchanged tag that is a collision of `mac k`.  Contrapositive: absent such a forgery/collision `asStep` returns
+`none` at the AS owning the hop field – not later.  (Peering segments excluded: the router has no peering rule.) -/
+theorem tamper_caught_at_owner (k : K) (fi : Bool) (p : PathV) (r : PathV × Bool) (hop h0 : HopF) (info i0 : InfoF)
+    (hh : p.hopAt p.currHf = some hop) (hi : p.infoAt p.currInf = some info)
+    (auth : macOk mac k h0 i0 = true) (diff : authBits hop (ingInfo fi hop info) ≠ authBits h0 i0)
+    (pass : asStep mac k fi p = some r) :
+    macInput hop (ingInfo fi hop info) ≠ macInput h0 i0 ∧ mac k (macInput hop (ingInfo fi hop info)) = hop.mac ∧
+    (hop.mac = h0.mac → mac k (macInput hop (ingInfo fi hop info)) = mac k (macInput h0 i0)) :=
+  tamper_detected mac k h0 hop i0 (ingInfo fi hop info) auth (asStep_some_macOk mac k fi p r hop info hh hi pass) diff
+
+/-- **Delivery.**  At the last hop field of the path (entered from outside or inside) the AS verifies the hop field
+under the SegID after the ingress update and hands the packet to the local destination; only the current info field
+(SegID) and hop field (alert bit) are written. -/
+theorem asStep_deliver (k : K) (fi : Bool) (p : PathV) (sos : Bool) (hop : HopF) (info : InfoF)
+    (hs : p.segIndex p.currHf = some (p.currInf, sos, true)) (hsos : sos = false) (hlast : p.hopCount ≤ p.currHf + 1)
+    (hh : p.hopAt p.currHf = some hop) (hi : p.infoAt p.currInf = some info)
+    (hm : macOk mac k hop (ingInfo fi hop info) = true) :
+    asStep mac k fi p = some
+      ({ p with infos := p.infos.set p.currInf (ingInfo fi hop info), hops := p.hops.set p.currHf (ingHop fi hop info) }, true) := by
+  subst hsos
+  have hd : decide (p.currHf + 1 ≥ p.hopCount) = true := decide_eq_true hlast
+  unfold asStep advanceIngress
+  simp only [hs, hh, hi, Bool.false_and, Bool.false_eq_true, if_false, ne_eq, not_true_eq_false, hd]
+  rw [finishIngress_ok p p hop _ info _ _ ⟨rfl, rfl, rfl, rfl, rfl⟩ hh hi]
+  simp only [hopMacValidator_hop, hm, if_true]
+
+/-- **Segment change.**  At the last hop field of a segment that is not the last of the path, the AS (one key for both
+hop fields) verifies the current hop field under the SegID after the ingress update *and* the first hop field of the
+next segment under that segment's untouched SegID, moves both pointers, and its egress step verifies that hop field
+again and folds its MAC in (construction direction): afterwards CurrHF is two further, CurrINF one further, and only
+those two hop fields and two info fields have been written. -/
+theorem asStep_change (k : K) (fi : Bool) (p : PathV) (sos : Bool) (hop nh : HopF) (info ni : InfoF)
+    (hs : p.segIndex p.currHf = some (p.currInf, sos, true)) (hsos : sos = false)
+    (hs' : p.segIndex (p.currHf + 1) = some (p.currInf + 1, true, false))
+    (hh : p.hopAt p.currHf = some hop) (hi : p.infoAt p.currInf = some info)
+    (hn : p.hopAt (p.currHf + 1) = some nh) (hni : p.infoAt (p.currInf + 1) = some ni)
+    (h63 : p.currHf + 2 ≤ MAX_TOTAL_HOPS)
+    (hm : macOk mac k hop (ingInfo fi hop info) = true) (hm' : macOk mac k nh ni = true) :
+    asStep mac k fi p = some
+      ({ p with infos := (p.infos.set p.currInf (ingInfo fi hop info)).set (p.currInf + 1) (egrInfo nh ni)
+                hops := (p.hops.set p.currHf (ingHop fi hop info)).set (p.currHf + 1) (egrHop nh ni)
+                currHf := p.currHf + 2, currInf := p.currInf + 1 }, false) := by
+  subst hsos
+  obtain ⟨a1, a2, -⟩ := hopAt_some p _ _ hh
+  obtain ⟨b1, b2, -⟩ := infoAt_some p _ _ hi
+  obtain ⟨c1, c2, c3⟩ := hopAt_some p _ _ hn
+  obtain ⟨d1, d2, d3⟩ := infoAt_some p _ _ hni
+  have hmx := max_hops_fits
+  have hseg2 := (segIndex_some _ _ _ _ _ _ _ hs').2.1
+  have e1 : (p.currHf + 1) % 2 ^ META_CURR_HOP_FIELD_WIDTH = p.currHf + 1 := Nat.mod_eq_of_lt (by omega)
+  have e2 : (p.currInf + 1) % 2 ^ META_CURR_INFO_FIELD_WIDTH = p.currInf + 1 :=
+    Nat.mod_eq_of_lt (by simp only [META_CURR_INFO_FIELD_WIDTH]; omega)
+  have hd : decide (p.currHf + 1 ≥ p.hopCount) = false := decide_eq_false (by omega)
+  unfold asStep
+  have hing : advanceIngress (hopMacValidator mac k) fi p =
+      ({ p with infos := p.infos.set p.currInf (ingInfo fi hop info), hops := p.hops.set p.currHf (ingHop fi hop info)
+                currHf := p.currHf + 1, currInf := p.currInf + 1 },
+       .ok { alert := ingressAlert hop.flags (consDir info.flags), ingressIf := hop.ingressIf info,
+             action := .continueEgress (nh.egressIf ni), valid := true }) := by
+    unfold advanceIngress
+    simp only [hs, hh, hi, hn, hni, Bool.false_and, Bool.false_eq_true, if_false, ne_eq, not_true_eq_false, hd]
+    rw [if_neg (by omega)]
+    rw [finishIngress_ok p { p with currHf := (p.currHf + 1) % 2 ^ META_CURR_HOP_FIELD_WIDTH
+                                    currInf := (p.currInf + 1) % 2 ^ META_CURR_INFO_FIELD_WIDTH }
+      hop _ info _ _ ⟨rfl, rfl, rfl, rfl, rfl⟩ hh hi]
+    have hm1 : (hop.mac == mac k (macInput hop (ingInfo fi hop info))) = true := hm
+    have hm2 : (nh.mac == mac k (macInput nh ni)) = true := hm'
+    simp only [e1, e2, hopMacValidator, hm1, hm2, Bool.and_self]
+  rw [hing]
+  simp only [if_true]
+  let p1 : PathV := { p with infos := p.infos.set p.currInf (ingInfo fi hop info), hops := p.hops.set p.currHf (ingHop fi hop info)
+                             currHf := p.currHf + 1, currInf := p.currInf + 1 }
+  have hs1 : p1.segIndex p1.currHf = some (p1.currInf, true, false) := hs'
+  have hh1 : p1.hopAt p1.currHf = some nh := by
+    show (if p.currHf + 1 < p.hopCount then (p.hops.set p.currHf (ingHop fi hop info))[p.currHf + 1]? else none) = _
+    rw [if_pos c1, List.getElem?_set_ne (by omega)]; exact c3
+  have hi1 : p1.infoAt p1.currInf = some ni := by
+    show (if p.currInf + 1 < p.infoCount then (p.infos.set p.currInf (ingInfo fi hop info))[p.currInf + 1]? else none) = _
+    rw [if_pos d1, List.getElem?_set_ne (by omega)]; exact d3
+  have he := egress_interior (hopMacValidator mac k) p1 true nh ni hs1 hh1 hi1 (by show p.currHf + 1 + 1 ≤ MAX_TOTAL_HOPS; omega)
+  show (match advanceEgress (hopMacValidator mac k) p1 with
+        | (p2, .ok o2) => if o2.valid then some (p2, false) else none
+        | _ => none) = _
+  rw [he]
+  simp only [hopMacValidator_hop, hm', if_true]
+  rfl
+
 /-- the MAC conditions of a run of interior hop fields, unfolded along the SegID evolution -/
 def RunOk : Bool → InfoF → List (K × HopF) → Prop
   | _, _, [] => True
@@ -910,5 +1144,23 @@ example (mac : MacFn Nat) :
       [(1, { exHopF 0 with mac := mac 1 ⟨9, 7, 5, 0, 1⟩ }),
        (2, { exHopF 1 with mac := mac 2 ⟨betaStep 9 (mac 1 ⟨9, 7, 5, 0, 1⟩), 7, 5, 1, 2⟩ })] :=
   chained_runOk_cons mac 7 1 0 (by decide) _ 9 true ⟨rfl, rfl, trivial⟩
+
+
+/-- the premises of `asStep_deliver` / `asStep_change` / `tamper_caught_at_owner` are satisfiable (constant MAC function;
+two segments of two hop fields, pointer on the last hop field of the first segment resp. of the path) -/
+def exMac0 : MacFn Nat := fun _ _ => 0
+def exHop0 (n : Nat) : HopF := ⟨0, 5, n, n + 1, 0⟩
+def exPath2 (ci ch : Nat) : PathV := ⟨ci, ch, 0, 2, 2, 0, [⟨1, 0, 7, 1000⟩, ⟨0, 0, 9, 2000⟩], [exHop0 0, exHop0 1, exHop0 2, exHop0 3]⟩
+example : ∃ q, asStep exMac0 1 false (exPath2 0 1) = some (q, false) ∧ q.currHf = 3 ∧ q.currInf = 1 :=
+  ⟨_, asStep_change exMac0 1 false (exPath2 0 1) false (exHop0 1) (exHop0 2) ⟨1, 0, 7, 1000⟩ ⟨0, 0, 9, 2000⟩
+      rfl rfl rfl rfl rfl rfl rfl (by decide) rfl rfl, rfl, rfl⟩
+example : ∃ q, asStep exMac0 1 false (exPath2 1 3) = some (q, true) :=
+  ⟨_, asStep_deliver exMac0 1 false (exPath2 1 3) false (exHop0 3) ⟨0, 0, 9, 2000⟩ rfl rfl (by decide) rfl rfl rfl⟩
+example : ∃ r, asStep exMac0 1 false (exPath2 1 3) = some r ∧
+    authBits (exHop0 3) (ingInfo false (exHop0 3) ⟨0, 0, 9, 2000⟩) ≠ authBits (exHop0 3) ⟨0, 0, 8, 2000⟩ ∧
+    macOk exMac0 1 (exHop0 3) ⟨0, 0, 8, 2000⟩ = true :=
+  ⟨_, asStep_deliver exMac0 1 false (exPath2 1 3) false (exHop0 3) ⟨0, 0, 9, 2000⟩ rfl rfl (by decide) rfl rfl rfl, by decide, rfl⟩
+example : (runProc [(noValidation, noValidation, true), (noValidation, noValidation, false)] exPath).2 = 2 := rfl
+example : ingressImp.effects = EFFECTS_INGRESS := rfl
 
 end ScionVerif.StdPath
